@@ -32,6 +32,7 @@ EXPLANATION += (' R-C05-14 (shared with R-C04-9): no HCM decision is reduced ove
 EXPLANATION += (' R-C05-13: the representative load history of a batch is never taken by striding over the rows of the incoming samples (built-in positive example).')
 EXPLANATION += (' R-C05-11: nothing cached on the FKM-nonlinear recorder or detector survives a later recording call (memo rule).')
 EXPLANATION += (' R-C05-12: the per-point look-up tables of the binned law keep the row order they were built in (shared with R-C07-8).')
+EXPLANATION += (' R-C05-15 (helper shared with the C07 rules): every class search of the binned law the detector evaluates is made with the absolute load itself - no offset, tolerance, rounding or scaling on the search key.')
 ASSUMPTIONS = ["pd.concat([a, b]) appends b after a"]
 
 LISTS = ["_loads_min", "_loads_max", "_S_min", "_S_max", "_epsilon_min", "_epsilon_max", "_epsilon_min_LF",
@@ -39,7 +40,7 @@ LISTS = ["_loads_min", "_loads_max", "_S_min", "_S_max", "_epsilon_min", "_epsil
 
 
 def run(ctx):
-    for r in (_r1, _r2, _r3, _r4, _r5, _r6, _r7, _r8, _r9, _r10, _r11, _r12, _r13, _r14):
+    for r in (_r1, _r2, _r3, _r4, _r5, _r6, _r7, _r8, _r9, _r10, _r11, _r12, _r13, _r14, _r15):
         ctx.attempt(r)
 
 
@@ -786,6 +787,14 @@ def _r10(ctx, own_rule=True):
                                              (f.name, norm_text(cmp_), eps), text=norm_text(cmp_))
     if n == 0:
         raise AnalysisError("no guarded load comparison found in the HCM case analysis")
+
+
+def _r15(ctx):
+    """The stresses and strains the detector records come from the binned law: each is the table entry of the class the
+    absolute load falls into.  The class must be searched with the absolute load itself (shared helper of the C07 rules)."""
+    from .c07 import search_keys_exact
+    ctx.rule("R-C05-15", floor=4, what="the class of a load is searched with the absolute load itself (no offset / tolerance on the key)")
+    search_keys_exact(ctx)
 
 
 def _r12(ctx):
